@@ -399,3 +399,73 @@ def check_filter_posterior(k1: int, k2: int, n_samples: int, n_out: int,
     score, sens = post.evaluateS1(x)
     ok = ok and np.shape(sens) == (n,)
     return bool(ok)
+
+
+def _mech_consistent(m) -> bool:
+    """counts, names and what the simulator holds agree"""
+    names = m.parameters()
+    n = m.n_parameters()
+    ok = len(names) == n and len(set(names)) == n
+    sm = m._simulator._model
+    n_sim = sm.count_states() + sum(
+        1 for v in sm.variables(const=True) if v.is_literal())
+    ok = ok and n == n_sim
+    outs = m.outputs()
+    ok = ok and m.n_outputs() == len(outs) and len(set(outs)) == len(outs)
+    return bool(ok)
+
+
+@concrete
+def check_mechanistic(model: int, h1: int, h2: int, h3: int,
+                      outsel: int) -> bool:
+    """SBML-backed models under histories of set_administration (0 none,
+    1 direct, 2 indirect) and set_outputs: counts and names follow the model
+    the simulator holds, and composites follow the mechanistic model.  The
+    solver is the recording stand-in of the engine (sundials is absent);
+    nothing is simulated."""
+    import os as _os
+    import sys as _sys
+    root = _os.path.dirname(_os.path.dirname(_os.path.abspath(__file__)))
+    if root not in _sys.path:
+        _sys.path.insert(0, root)
+    import chi.library
+    import chi._mechanistic_models as mmod
+    from chisym.facade_myokit import MyokitFacade
+    saved = mmod.myokit
+    mmod.myokit = MyokitFacade()
+    try:
+        lib = chi.library.ModelLibrary()
+        m = [lib.one_compartment_pk_model,
+             lib.erlotinib_tumour_growth_inhibition_model][model]()
+        ok = _mech_consistent(m)
+        comp = 'central'
+        for h in (h1, h2, h3):
+            if h == 1:
+                m.set_administration(comp, direct=True)
+            elif h == 2:
+                m.set_administration(comp, direct=False)
+            if outsel == 1:
+                m.set_outputs([m.outputs()[0]])
+            elif outsel == 2:
+                m.set_outputs(m.outputs()[::-1])
+            ok = ok and _mech_consistent(m)
+            c = m.copy()
+            ok = ok and _mech_consistent(c)
+            ok = ok and c.parameters() == m.parameters()
+        n = m.n_parameters()
+        n_out = m.n_outputs()
+        ems = [chi.GaussianErrorModel() for _ in range(n_out)]
+        ll = chi.LogLikelihood(m, ems, [[1.5, 2.5]] * n_out,
+                               [[1.0, 2.0]] * n_out)
+        ok = ok and ll.n_parameters() == n + n_out == len(
+            ll.get_parameter_names())
+        ok = ok and ll.get_parameter_names()[:n] == m.parameters()
+        pm = chi.PredictiveModel(m, ems)
+        ok = ok and pm.n_parameters() == n + n_out == len(
+            pm.get_parameter_names())
+        r = chi.ReducedMechanisticModel(m)
+        r.fix_parameters({m.parameters()[0]: 1.0})
+        ok = ok and r.n_parameters() == n - 1 == len(r.parameters())
+    finally:
+        mmod.myokit = saved
+    return bool(ok)
